@@ -1,10 +1,12 @@
 use super::Walrus;
+use super::writer::Writer;
 
 impl Walrus {
     pub fn append_for_topic(&self, col_name: &str, raw_bytes: &[u8]) -> std::io::Result<()> {
         #[cfg(walrus_verif)]
         crate::wal::verif::api("append", col_name, 1);
         self.mark_topic_dirty(col_name);
+        Writer::precheck(col_name, &[raw_bytes])?;
         let writer = self.get_or_create_writer(col_name)?;
         writer.write(raw_bytes)?;
         self.increment_topic_entry_count(col_name, 1);
@@ -15,6 +17,10 @@ impl Walrus {
         #[cfg(walrus_verif)]
         crate::wal::verif::api("batch_append", col_name, batch.len());
         self.mark_topic_dirty(col_name);
+        Writer::precheck(col_name, batch)?;
+        if batch.is_empty() {
+            return Ok(());
+        }
         let writer = self.get_or_create_writer(col_name)?;
         writer.batch_write(batch)?;
         self.increment_topic_entry_count(col_name, batch.len() as u64);
